@@ -41,6 +41,9 @@ RatiosOK(R, bch) ==
   /\ RatioOK(R.iters, R.frames, R.avg_u)
   /\ (bch > 0 => RatioOK(R.bberr, R.k * R.frames, R.bber_u) /\ RatioOK(R.bferr, R.frames, R.bfer_u))
 
+\* workers per epoch as OBSERVED (decoders built / epochs): the requested count is only a request to the scheduler
+NW(ev) == ev.built \div ev.cfg.epochs
+
 FinishedLastOnce(reps) ==
   /\ Len(reps) >= 1 /\ reps[Len(reps)].finished
   /\ \A k \in 1..Len(reps) - 1 : ~reps[k].finished
@@ -62,7 +65,7 @@ Start ==
      IF ev.e # "BerRun" THEN Reject(l, "unknown event") /\ l' = l + 1 /\ Idle
      ELSE IF ev.cfg.fault # "none" THEN
           (IF FaultOK(ev) THEN Accept(l) ELSE Reject(l, "fault")) /\ l' = l + 1 /\ Idle
-     ELSE /\ ev.o = "ok" /\ ev.result = "ok" /\ ev.built = ev.cfg.W * ev.cfg.epochs        \* otherwise: no step, no ACCEPT
+     ELSE /\ ev.o = "ok" /\ ev.result = "ok" /\ ev.built >= ev.cfg.epochs /\ ev.built % ev.cfg.epochs = 0   \* otherwise: no step, no ACCEPT
           /\ ph' = "run" /\ ep' = 1 /\ pos' = [d \in 1..ev.built |-> 0] /\ cur' = Zero /\ ri' = 1 /\ lastErr' = FALSE
           /\ UNCHANGED l
 
@@ -74,7 +77,7 @@ Consume ==
      /\ ri <= Len(ev.reports) /\ ep <= ev.cfg.epochs
      /\ LET R == ev.reports[ri] IN
         /\ InEpoch(ev, R) /\ cur.frames < R.frames
-        /\ \E d \in ((ep - 1) * ev.cfg.W + 1)..(ep * ev.cfg.W) :
+        /\ \E d \in ((ep - 1) * NW(ev) + 1)..(ep * NW(ev)) :
              /\ pos[d] < Len(ev.workers[d])
              /\ LET nxt == AccT(cur, ev.workers[d][pos[d] + 1], ev.cfg.bch) IN
                 /\ nxt.ferr <= R.ferr /\ nxt.berr <= R.berr /\ nxt.iters <= R.iters      \* prune: counters only grow
